@@ -68,6 +68,12 @@ type Partition struct {
 	Log      []refcodec.Batch
 	LogStart int64
 	End      int64 // next offset to assign (= high watermark)
+	encCache map[encKey][]byte
+}
+
+type encKey struct {
+	index    int
+	maxMagic int8
 }
 
 // Topic state.
